@@ -133,18 +133,18 @@ theorem assignment_order (fo : FloatOps) (n : Nat) (ctx : Ctx) (line : Nat) (tar
         (lvs.zip (adjust lvs.length vs)).forM (assignTo (evalN fo n) ctx'.here)
         pure Sig.normal) := rfl
 
-theorem evals_var (fo : FloatOps) (n : Nat) (ctx : Ctx) (x : String) (c : Nat) (s : Store)
+theorem evals_var (fo : FloatOps) (n : Nat) (ctx : Ctx) (x : String) (c : Nat) (s : Store) (hm : s.Main)
     (hx : lookupVar ctx.env x = some c) :
     Evals ((evalN fo (n + 1)).exprM ctx (.var x)) s (.ok [s.cells.getD c .nil]) s := by
   show Evals (stepExprM fo (evalN fo n) ctx (.var x)) s _ s
   unfold stepExprM
   simp only [hx]
-  exact evals_bind_ok (evals_readCell c s) (evals_pure _ _)
+  exact evals_bind_ok (evals_readCell c s hm) (evals_pure _ _)
 
 /-- `assignment_evaluates_before_assigning` (the swap): for two different local variables,
     `x, y = y, x` exchanges their values — both reads happen before either write -/
 theorem assignment_evaluates_before_assigning (fo : FloatOps) (n : Nat) (ctx : Ctx) (line : Nat) (x y : String)
-    (cx cy : Nat) (s : Store)
+    (cx cy : Nat) (s : Store) (hm : s.Main)
     (hx : lookupVar ctx.env x = some cx) (hy : lookupVar ctx.env y = some cy) :
     Evals ((evalN fo (n + 4)).stmt ctx (.assign line [.var x, .var y] [.var y, .var x])) s (.ok .normal)
       { s with cells := (s.cells.setIfInBounds cx (s.cells.getD cy .nil)).setIfInBounds cy (s.cells.getD cx .nil) } := by
@@ -160,9 +160,9 @@ theorem assignment_evaluates_before_assigning (fo : FloatOps) (n : Nat) (ctx : C
   have hv : Evals ((evalN fo (n + 3)).exprs ctx' [.var y, .var x]) s
       (.ok [s.cells.getD cy .nil, s.cells.getD cx .nil]) s := by
     have := call_in_middle_truncated fo (n + 2) ctx' (.var y) (.var x) [] (s := s) (s1 := s) (s2 := s)
-      (evals_var fo (n + 1) ctx' y cy s hy') (by
+      (evals_var fo (n + 1) ctx' y cy s hm hy') (by
         show Evals ((evalN fo (n + 1)).exprM ctx' (.var x)) s _ s
-        exact evals_var fo n ctx' x cx s hx')
+        exact evals_var fo n ctx' x cx s hm hx')
     exact this
   refine evals_bind_ok ht (evals_bind_ok hv ?_)
   -- the two writes
@@ -170,30 +170,30 @@ theorem assignment_evaluates_before_assigning (fo : FloatOps) (n : Nat) (ctx : C
   refine evals_bind_ok (a := ()) ?_ (evals_pure _ _)
   show Evals (do assignTo (evalN fo (n + 3)) ctx'.here (LVal.cell cx, s.cells.getD cy .nil); (do assignTo (evalN fo (n + 3)) ctx'.here (LVal.cell cy, s.cells.getD cx .nil); pure PUnit.unit)) s _ _
   have w1 : Evals (assignTo (evalN fo (n + 3)) ctx'.here (LVal.cell cx, s.cells.getD cy .nil)) s (.ok ())
-      { s with cells := s.cells.setIfInBounds cx (s.cells.getD cy .nil) } := evals_writeCell cx _ s
+      { s with cells := s.cells.setIfInBounds cx (s.cells.getD cy .nil) } := evals_writeCell cx _ s hm
   have w2 : Evals (assignTo (evalN fo (n + 3)) ctx'.here (LVal.cell cy, s.cells.getD cx .nil))
       { s with cells := s.cells.setIfInBounds cx (s.cells.getD cy .nil) } (.ok ())
       { s with cells := (s.cells.setIfInBounds cx (s.cells.getD cy .nil)).setIfInBounds cy (s.cells.getD cx .nil) } :=
-    evals_writeCell cy _ _
+    evals_writeCell cy _ _ ⟨hm.1, hm.2⟩
   exact evals_bind_ok w1 (evals_bind_ok w2 (evals_pure _ _))
 
 /-! ### fresh variables per loop iteration, closures -/
 
 /-- a function expression creates a new closure over exactly the cells the current scope binds
     (not copies of their values) -/
-theorem closure_captures_cells (fo : FloatOps) (n : Nat) (ctx : Ctx) (fb : FuncBody) (s : Store) :
+theorem closure_captures_cells (fo : FloatOps) (n : Nat) (ctx : Ctx) (fb : FuncBody) (s : Store) (hm : s.Main) :
     Evals ((evalN fo (n + 1)).exprM ctx (.func fb)) s (.ok [.func s.closures.size])
       { s with closures := s.closures.push ⟨fb, ctx.env⟩ } := by
   show Evals (stepExprM fo (evalN fo n) ctx (.func fb)) s _ _
   unfold stepExprM
-  exact evals_bind_ok (evals_allocClosure _ s) (evals_pure _ _)
+  exact evals_bind_ok (evals_allocClosure _ s hm) (evals_pure _ _)
 
 /-- `fresh_loop_variable` (numeric for): an iteration runs the body with the loop variable bound to the
     cell `s.cells.size` — a cell that did not exist before the iteration; after a normal end of the
     body the next iteration binds it to the then-next cell, which is a different one.  Hence closures
     created in different iterations capture different cells (`closure_captures_cells`). -/
 theorem fresh_loop_variable (fo : FloatOps) (n : Nat) (ctx : Ctx) (v : String) (cur step : I64) (count : Nat)
-    (body : Block) (s s2 : Store) {r s3}
+    (body : Block) (s s2 : Store) (hm : s.Main) {r s3}
     (hbody : Evals ((evalN fo n).stmts { ctx with env := (v, s.cells.size) :: ctx.env } body none
                 (ctx.env.length + 1) 0 0) { s with cells := s.cells.push (.int cur) } (.ok .normal) s2)
     (hnext : Evals ((evalN fo n).fornumI ctx v (cur + step) step count body) s2 r s3) :
@@ -204,7 +204,7 @@ theorem fresh_loop_variable (fo : FloatOps) (n : Nat) (ctx : Ctx) (v : String) (
   constructor
   · show Evals (stepFornumI (evalN fo n) ctx v cur step (count + 1) body) s r s3
     unfold stepFornumI
-    refine evals_bind_ok (evals_allocCell _ s) (evals_bind_ok (a := Sig.normal) (s1 := s2) ?_ ?_)
+    refine evals_bind_ok (evals_allocCell _ s hm) (evals_bind_ok (a := Sig.normal) (s1 := s2) ?_ ?_)
     · simpa using hbody
     · simpa using hnext
   · have := (hbody.grows ((evalN_grows fo n).stmts _ _ _ _ _ _)).cells
@@ -213,8 +213,68 @@ theorem fresh_loop_variable (fo : FloatOps) (n : Nat) (ctx : Ctx) (v : String) (
 
 /-- the same for the statements of a `while`/`repeat` body or any block: every execution of a `local`
     declaration allocates new cells (`bindNames` only ever pushes) -/
-theorem local_declares_fresh_cell (v : Val) (s : Store) :
-    Evals (allocCell v) s (.ok s.cells.size) { s with cells := s.cells.push v } := evals_allocCell v s
+theorem local_declares_fresh_cell (v : Val) (s : Store) (hm : s.Main) :
+    Evals (allocCell v) s (.ok s.cells.size) { s with cells := s.cells.push v } := evals_allocCell v s hm
+
+/-! ### goto and tail calls -/
+
+/-- `goto_continue_fresh_local`: a `goto l` to a label of the enclosing block (index `k`, with `d` locals of the
+    block declared before it) continues right after the label with the scope cut back to those `d` locals:
+    every local declared after the label in the previous pass is gone, and its `local` statement, when executed
+    again, allocates a new cell (`local_declares_fresh_cell`) — so closures from different passes of a
+    continue-style loop hold different variables -/
+theorem goto_continue_fresh_local (fo : FloatOps) (n : Nat) (ctx : Ctx) (whole : Block) (tail) (base lo i k d : Nat)
+    (l : String) {s res s2}
+    (hi : whole[i]? = some (.goto_ l)) (hl : findLabel l whole 0 0 = some (k, d)) (hk : lo ≤ k)
+    (hrest : Evals ((evalN fo (n + 1)).stmts { ctx with env := ctx.env.drop (ctx.env.length - (base + d)) }
+                whole tail base lo (k + 1)) s res s2) :
+    Evals ((evalN fo (n + 2)).stmts ctx whole tail base lo i) s res s2 := by
+  show Evals (stepStmts (evalN fo (n + 1)) ctx whole tail base lo i) s res s2
+  unfold stepStmts
+  simp only [hi]
+  have hg : Evals ((evalN fo (n + 1)).stmt ctx (.goto_ l)) s (.ok (.goto_ l)) s := evals_pure _ _
+  refine evals_bind_ok hg ?_
+  simp only [hl, ge_iff_le, hk, ↓reduceIte]
+  exact hrest
+
+/-- the scope after the jump binds exactly the block's enclosing scope plus the `d` locals declared before the label -/
+theorem goto_scope_length (env : List (String × Nat)) (base d : Nat) (h : base + d ≤ env.length) :
+    (env.drop (env.length - (base + d))).length = base + d := by
+  simp only [List.length_drop]; omega
+
+/-- a tail call `return f(args)` (outside to-be-closed scopes) is the call `f(args)` made with the caller's own
+    activation removed from the stack of active functions (so that `error(…, 2)` in `f` names the caller's caller),
+    and its results are returned unchanged -/
+theorem tailcall_replaces_activation (fo : FloatOps) (n : Nat) (ctx : Ctx) (line : Nat) (f : Expr) (args : List Expr)
+    (htbc : ctx.inTbc = false) {s fvs s1 as s2 vs s3}
+    (hf : Evals ((evalN fo n).exprM { ctx with line := line } f) s (.ok fvs) s1)
+    (hargs : Evals ((evalN fo n).exprs { ctx with line := line } args) s1 (.ok as) s2)
+    (hcall : Evals ((evalN fo n).call (tailDyn { ctx with line := line } (fvs.headD .nil)) (fvs.headD .nil) as) s2 (.ok vs) s3) :
+    Evals ((evalN fo (n + 1)).stmt ctx (.return_ line [.call f args])) s (.ok (.ret vs)) s3 := by
+  show Evals (stepStmt (evalN fo n) ctx (.return_ line [.call f args])) s _ s3
+  unfold stepStmt
+  simp only [htbc] at hf hargs hcall ⊢
+  unfold eval1
+  exact evals_bind_ok (evals_bind_ok hf (evals_pure _ _)) (evals_bind_ok hargs (evals_bind_ok hcall (evals_pure _ _)))
+
+/-- `tailcall_same_result`: whenever the callee's outcome does not depend on the caller's line (it raises no
+    level-2 positioned error; always the case for host functions and callable tables), `return f(args)` returns
+    exactly the values the expression `f(args)` evaluates to, in the same store -/
+theorem tailcall_same_result (fo : FloatOps) (n : Nat) (ctx : Ctx) (line : Nat) (f : Expr) (args : List Expr)
+    (htbc : ctx.inTbc = false) {s fvs s1 as s2 vs s3}
+    (hf : Evals ((evalN fo n).exprM { ctx with line := line } f) s (.ok fvs) s1)
+    (hargs : Evals ((evalN fo n).exprs { ctx with line := line } args) s1 (.ok as) s2)
+    (hcall : Evals ((evalN fo n).call (tailDyn { ctx with line := line } (fvs.headD .nil)) (fvs.headD .nil) as) s2 (.ok vs) s3)
+    (hsame : Evals ((evalN fo n).call ({ ctx with line := line } : Ctx).here (fvs.headD .nil) as) s2 (.ok vs) s3) :
+    Evals ((evalN fo (n + 1)).stmt ctx (.return_ line [.call f args])) s (.ok (.ret vs)) s3 ∧
+    Evals ((evalN fo (n + 1)).exprM { ctx with line := line } (.call f args)) s (.ok vs) s3 := by
+  refine ⟨tailcall_replaces_activation fo n ctx line f args htbc hf hargs hcall, ?_⟩
+  show Evals (stepExprM fo (evalN fo n) { ctx with line := line } (.call f args)) s _ s3
+  unfold stepExprM eval1
+  exact evals_bind_ok (evals_bind_ok hf (evals_pure _ _)) (evals_bind_ok hargs hsame)
+
+/-- for a callee that is not a Lua function the two dynamic contexts coincide, so `hsame` is `hcall` -/
+theorem tailDyn_host (ctx : Ctx) (b : Builtin) : tailDyn ctx (.builtin b) = ctx.here := rfl
 
 /-! ### protected calls -/
 
@@ -258,6 +318,7 @@ variable (fo : FloatOps)
 
 def exCtx : Ctx := { env := [("x", 0), ("y", 1)], varargs := [.int 1#64, .int 2#64], line := 1, dyn := ⟨[], none⟩ }
 def exStore : Store := { initStore [] with cells := #[.int 10#64, .int 20#64] }
+theorem exStore_main : exStore.Main := ⟨rfl, rfl⟩
 
 theorem evals_int (n : Nat) (ctx : Ctx) (k : I64) (s : Store) :
     Evals ((evalN fo (n + 1)).exprM ctx (.int k)) s (.ok [.int k]) s := evals_pure _ _
@@ -279,23 +340,23 @@ example : Evals ((evalN fo 2).exprM exCtx (.paren .vararg)) exStore (.ok [.int 1
 /-- the swap, in a store where x = 10 and y = 20 -/
 example : Evals ((evalN fo 4).stmt exCtx (.assign 1 [.var "x", .var "y"] [.var "y", .var "x"])) exStore (.ok .normal)
     { exStore with cells := #[.int 20#64, .int 10#64] } :=
-  assignment_evaluates_before_assigning fo 0 exCtx 1 "x" "y" 0 1 exStore rfl rfl
+  assignment_evaluates_before_assigning fo 0 exCtx 1 "x" "y" 0 1 exStore exStore_main rfl rfl
 
 theorem evals_empty_block (n : Nat) (ctx : Ctx) (base : Nat) (s : Store) :
     Evals ((evalN fo (n + 1)).stmts ctx [] none base 0 0) s (.ok .normal) s := evals_pure _ _
 
-theorem evals_last_iteration (n : Nat) (ctx : Ctx) (v : String) (cur step : I64) (s : Store) :
+theorem evals_last_iteration (n : Nat) (ctx : Ctx) (v : String) (cur step : I64) (s : Store) (hm : s.Main) :
     Evals ((evalN fo (n + 2)).fornumI ctx v cur step 0 []) s (.ok .normal) { s with cells := s.cells.push (.int cur) } := by
   show Evals (stepFornumI (evalN fo (n + 1)) ctx v cur step 0 []) s _ _
   unfold stepFornumI
-  exact evals_bind_ok (evals_allocCell _ s) (evals_bind_ok (evals_empty_block fo n _ _ _) (evals_pure _ _))
+  exact evals_bind_ok (evals_allocCell _ s hm) (evals_bind_ok (evals_empty_block fo n _ _ _) (evals_pure _ _))
 
 /-- two iterations of `for i = 7, 8 do end`: cell 2 for the first, cell 3 for the second -/
 example : Evals ((evalN fo 3).fornumI exCtx "i" 7#64 1#64 1 []) exStore (.ok .normal)
       { exStore with cells := #[.int 10#64, .int 20#64, .int 7#64, .int 8#64] }
     ∧ exStore.cells.size < ({ exStore with cells := exStore.cells.push (.int 7#64) } : Store).cells.size :=
-  fresh_loop_variable fo 2 exCtx "i" 7#64 1#64 0 [] exStore { exStore with cells := exStore.cells.push (.int 7#64) }
-    (evals_empty_block fo 1 _ _ _) (evals_last_iteration fo 0 exCtx "i" (7#64 + 1#64) 1#64 _)
+  fresh_loop_variable fo 2 exCtx "i" 7#64 1#64 0 [] exStore { exStore with cells := exStore.cells.push (.int 7#64) } exStore_main
+    (evals_empty_block fo 1 _ _ _) (evals_last_iteration fo 0 exCtx "i" (7#64 + 1#64) 1#64 _ ⟨rfl, rfl⟩)
 
 /-- pcall of the builtin `error` with a table value: caught, value intact (hypothesis of `pcall_catches_error`) -/
 example : Evals (builtinCall (evalN fo 2) ⟨[3], none⟩ .pcall [.builtin .error, .table 7]) exStore
@@ -324,12 +385,12 @@ example : (match run default 10 [.local_ 1 [("x", .none), ("y", .none)] [.int 1#
                                   .assign 2 [.var "x", .var "y"] [.var "y", .var "x"],
                                   .return_ 3 [.var "x", .var "y"]] [] with
            | .done rets _ => rets
-           | _ => []) = [.int 2#64, .int 1#64] := by decide
+           | _ => []) = [.int 2#64, .int 1#64] := by decide +kernel
 
 /-- `return ("abc"):len()` returns 3: the method receives the string itself -/
 example : (match run default 12 [.return_ 1 [.method (.str "abc".toUTF8) "len".toUTF8 []]] [] with
            | .done rets _ => rets
-           | _ => []) = [.int 3#64] := by decide
+           | _ => []) = [.int 3#64] := by decide +kernel
 
 /-- `local fs = {}; for i = 1, 2 do fs[i] = function() return i end end; return fs[1](), fs[2]()` returns `1, 2`:
     the two closures captured different variables -/
@@ -338,13 +399,46 @@ example : (match run default 16 [.local_ 1 [("fs", .none)] [.table []],
                [.assign 3 [.index (.var "fs") (.var "i")] [.func (.mk [] false [.return_ 3 [.var "i"]])]],
              .return_ 5 [.call (.index (.var "fs") (.int 1#64)) [], .call (.index (.var "fs") (.int 2#64)) []]] [] with
            | .done rets _ => rets
-           | _ => []) = [.int 1#64, .int 2#64] := by decide
+           | _ => []) = [.int 1#64, .int 2#64] := by decide +kernel
 
 /-- `local ok, e = pcall(function() error({}) end); return ok, type(e)` -/
 example : (match run default 16 [.local_ 1 [("ok", .none), ("e", .none)]
                [.call (.var "pcall") [.func (.mk [] false [.callS 1 (.call (.var "error") [.table []])])]],
              .return_ 2 [.var "ok", .call (.var "type") [.var "e"]]] [] with
            | .done rets _ => rets
-           | _ => []) = [.bool false, .ofString "table"] := by decide
+           | _ => []) = [.bool false, .ofString "table"] := by decide +kernel
+
+set_option maxRecDepth 8000 in
+/-- continue-style backward jump over a local: `do local i = 0 ::top:: i = i + 1 local j = i * 10 fs[i] = function() return j end
+    if i < 2 then goto top end end return fs[1](), fs[2]()` returns `10, 20` (a fresh `j` per pass) -/
+example : (match run default 24 [.local_ 1 [("fs", .none)] [.table []],
+             .do_ [.local_ 2 [("i", .none)] [.int 0#64], .label "top",
+                   .assign 3 [.var "i"] [.bin .add (.var "i") (.int 1#64)],
+                   .local_ 4 [("j", .none)] [.bin .mul (.var "i") (.int 10#64)],
+                   .assign 5 [.index (.var "fs") (.var "i")] [.func (.mk [] false [.return_ 5 [.var "j"]])],
+                   .if_ 6 (.bin .lt (.var "i") (.int 2#64)) [.goto_ "top"] []],
+             .return_ 8 [.call (.index (.var "fs") (.int 1#64)) [], .call (.index (.var "fs") (.int 2#64)) []]] [] with
+           | .done rets _ => rets
+           | _ => []) = [.int 10#64, .int 20#64] := by decide +kernel
+
+set_option maxRecDepth 8000 in
+/-- tail call: `local function f(n) if n == 0 then return "done" end return f(n - 1) end return f(3)` -/
+example : (match run default 40 [.localfn 1 "f" (.mk ["n"] false
+               [.if_ 2 (.bin .eq (.var "n") (.int 0#64)) [.return_ 2 [.str "done".toUTF8]] [],
+                .return_ 3 [.call (.var "f") [.bin .sub (.var "n") (.int 1#64)]]]),
+             .return_ 5 [.call (.var "f") [.int 3#64]]] [] with
+           | .done rets _ => rets
+           | _ => []) = [.ofString "done"] := by decide +kernel
+
+/-- a generator driving a generic for:
+    `local acc = 0; for v in coroutine.wrap(function() for i = 1, 3 do coroutine.yield(i) end end) do acc = acc * 10 + v end; return acc` -/
+example : (match run default 60 [.local_ 1 [("acc", .none)] [.int 0#64],
+             .forin 2 ["v"] [.call (.index (.var "coroutine") (.str "wrap".toUTF8))
+                 [.func (.mk [] false [.fornum 2 "i" (.int 1#64) (.int 3#64) none
+                    [.callS 2 (.call (.index (.var "coroutine") (.str "yield".toUTF8)) [.var "i"])]])]]
+               [.assign 3 [.var "acc"] [.bin .add (.bin .mul (.var "acc") (.int 10#64)) (.var "v")]],
+             .return_ 5 [.var "acc"]] [] with
+           | .done rets _ => rets
+           | _ => []) = [.int 123#64] := by decide +kernel
 
 end GoluaVerif.Props.C01
